@@ -15,9 +15,9 @@ def check(tier, seed):
     plans = [
         dict(flavour="serial", label="serial-3x6", args=["--threads", 3, "--ops", 6], total=200000 if q else 5000000),
         dict(flavour="serial", label="serial-4x12", args=["--threads", 4, "--ops", 12, "--budget", 1000000], total=40000 if q else 1000000),
-        dict(flavour="free", label="free", args=["--threads", 8, "--ops", 20000, "--fixed"], total=32 if q else 1000, timeout=600),
-        dict(flavour="tsan", label="free-tsan-plain-payload", args=["--threads", 6, "--ops", 3000, "--fixed"], total=16 if q else 400, timeout=900),
-        dict(flavour="asan", label="free-asan", args=["--threads", 6, "--ops", 5000, "--fixed"], total=16 if q else 400, timeout=900),
+        dict(flavour="free", label="free", args=["--threads", 8, "--ops", 20000, "--fixed"], total=32 if q else 1000, chunk=2, timeout=600),
+        dict(flavour="tsan", label="free-tsan-plain-payload", args=["--threads", 6, "--ops", 3000, "--fixed"], total=16 if q else 400, chunk=1, timeout=900),
+        dict(flavour="asan", label="free-asan", args=["--threads", 6, "--ops", 5000, "--fixed"], total=16 if q else 400, chunk=1, timeout=900),
     ]
     res = run_ds("C30", "h_orw", tier, seed, plans, RULE)
     res.assumptions = ["'no livelock' is restated as bounded progress: every history finishes within the step budget",
